@@ -91,6 +91,23 @@ def poly1305(key, msg):
         acc = (acc + int.from_bytes(blk + b'\x01', 'little')) * r % p
     return ((acc + s) & ((1 << 128) - 1)).to_bytes(16, 'little')
 
+def poly1305_zero_prefix(key, nzero_blocks, rest):
+    """Poly1305 of (16*nzero_blocks zero bytes || rest) without materialising the zeros: the accumulator after n all-zero
+    blocks is 2^128 * (r + r^2 + ... + r^n) mod p, a geometric series."""
+    r = int.from_bytes(key[:16], 'little') & 0x0ffffffc0ffffffc0ffffffc0fffffff
+    s = int.from_bytes(key[16:], 'little')
+    p = (1 << 130) - 5
+    n = nzero_blocks
+    if r == 0:
+        acc = 0
+    elif r == 1:
+        acc = (n << 128) % p
+    else:
+        acc = (1 << 128) * r * (pow(r, n, p) - 1) * pow(r - 1, p - 2, p) % p
+    for i in range(0, len(rest), 16):
+        acc = (acc + int.from_bytes(rest[i:i + 16] + b'\x01', 'little')) * r % p
+    return ((acc + s) & ((1 << 128) - 1)).to_bytes(16, 'little')
+
 def pad16(b): return b'\0' * ((16 - len(b) % 16) % 16)
 
 def aead_encrypt(key, nonce, aad, pt, rounds=20):
